@@ -122,6 +122,9 @@ func c01Case(ctx *genCtx, ts *tape.Set, dir string) *genResult {
 	if w.HasQ {
 		res.probe("world.two_packages")
 	}
+	if r.NotGofmt {
+		res.probe("output_not_gofmt_clean")
+	}
 	if v != nil && v.Clause == "crash" {
 		res.SawPanic = true
 	}
@@ -143,9 +146,10 @@ func c01Oracle(ctx *genCtx, dir string, files map[string]string, flags, pkgs []s
 		facts["typeerrors"] = strings.Join(errs, "\n")
 		return r, &genViolation{Clause: "not-typecheck", Detail: strings.Join(errs, " | "), Facts: facts}
 	}
+	// gofmt-cleanliness of the output is not part of the statement: observed as a probe only
 	for _, rel := range sortedKeysStr(derivedFiles(dir)) {
 		if m := gofmtClean(filepath.Join(dir, rel)); m != "" {
-			return r, &genViolation{Clause: "not-gofmt", Detail: rel + ": " + m, Facts: facts}
+			r.NotGofmt = true
 		}
 	}
 	return r, nil
